@@ -54,8 +54,8 @@ impl std::fmt::Display for FeelZone {
       FeelZone::Local => write!(f, ""),
       FeelZone::Offset(offset) => {
         let hours = offset / 3_600;
-        let minutes = offset.abs().rem(3_600).div(60);
-        let seconds = offset.abs().rem(3_600).rem(60);
+        let minutes = offset.unsigned_abs().rem(3_600).div(60);
+        let seconds = offset.unsigned_abs().rem(3_600).rem(60);
         if seconds > 0 {
           write!(f, "{:+03}:{:02}:{:02}", hours, minutes, seconds)
         } else {
